@@ -78,7 +78,7 @@ CHECKS = {
         assumptions=["'no OS path reached the kernel' is approximated by the unchanged os directory + sentinel sibling", "NUL bytes are not generated"],
         legs=[dict(name=k, run="^Test%s$" % n, quick=q, thorough=q * 10, shards=2) for (k, n, q) in [
             ("mem", "Mem", 400), ("kvplain", "KVPlain", 200), ("mount2", "Mount2", 500), ("submem", "SubMem", 300), ("submountpt", "SubMountPt", 300),
-            ("cache", "Cache", 200), ("tar", "Tar", 150), ("kvoffline", "KVOffline", 150), ("tarbroken", "TarBroken", 100), ("tarcanceled", "TarCanceled", 100), ("osfs", "OSFS", 200), ("sublenient", "SubLenient", 150)]] + [
+            ("cache", "Cache", 200), ("tar", "Tar", 150), ("kvoffline", "KVOffline", 150), ("tarbroken", "TarBroken", 100), ("tarcanceled", "TarCanceled", 100), ("osfs", "OSFS", 200), ("ostop", "TopLevelSub", 400), ("sublenient", "SubLenient", 150)]] + [
             dict(name="fuzznames", run="^$", fuzz="^FuzzNames$", fuzztime="45s", tiers=("thorough",), timeout_thorough=240)],
     ),
     "C07": dict(
@@ -291,7 +291,7 @@ CHECKS = {
               "kinds: silently do nothing, apply twice, drop the entry, leave the source behind, flipped permission bits, wrong size, wrong name, wrong bytes, wrong n, early EOF, wrong error kind, wrong error path, ignore O_TRUNC, drop/duplicate/mis-kind a directory entry; triggers: always, k-th call (1..3), names containing foo / bar. "
               "Each evaluation re-executes the compiled test binary running fstest.FS + fstest.File against the deviant. The wrapper also RECORDS every call the suite makes and what it got back (error class and paths, n, bytes, FileInfo, entries), per scenario; the same recorder runs on the reference. "
               "A deviant is non-trivial iff some scenario's recorded results differ from the reference's (as multisets; scenarios whose goroutines / parallel sub-tests share one FS only count for triggers that do not depend on a call count); then the suite must exit != 0. "
-              "triggers also include ARGUMENT CLASSES per operation (OpenFile by access mode and by O_CREATE/O_EXCL/O_TRUNC/O_APPEND; Truncate negative/zero/shrink/grow; Seek by origin and negative offset; ReadAt/WriteAt negative/zero/past-end offset; ReadDir n<=0 / n>0; empty buffers): such a deviant misbehaves only for calls in the class. grammar leg (both tiers, it takes seconds): the whole finite grammar (541 deviants), enumerated completely. Ratchet: every deviant the suite rejected at the pinned commit (harness/c20/expected_killed.txt, 276, identical in three runs at different GOMAXPROCS) must still be rejected; one that no scenario observes any more is reported as C20:unexercised (an edit dropped the scenario or made sub-tests share a table row). reference leg: the suite passes on mem.FS and os.FS at -test.parallel/GOMAXPROCS in {1,16} x {1,16}, repeatedly, with identical recorded behaviour. "
+              "triggers also include ARGUMENT CLASSES per operation (OpenFile by access mode and by O_CREATE/O_EXCL/O_TRUNC/O_APPEND; Truncate negative/zero/shrink/grow; Seek by origin and negative offset; ReadAt/WriteAt negative/zero/past-end offset; ReadDir n<=0 / n>0; empty buffers): such a deviant misbehaves only for calls in the class. grammar leg (both tiers, it takes seconds): the whole finite grammar (578 deviants), enumerated completely. Ratchet: every deviant the suite rejected at the pinned commit (harness/c20/expected_killed.txt, 300, identical in three runs at different GOMAXPROCS) must still be rejected; one that no scenario observes any more is reported as C20:unexercised (an edit dropped the scenario or made sub-tests share a table row). reference leg: the suite passes on mem.FS and os.FS at -test.parallel/GOMAXPROCS in {1,16} x {1,16}, repeatedly, with identical recorded behaviour. "
               "non-trivial & distinct = deviants whose recorded behaviour differs"),
         assumptions=["substituting ErrNotImplemented is not a deviation (the suite skips what a file system declares unsupported)", "a deviant whose effect is never observed through the calls the suite makes is counted as trivial, not as a survivor"],
         legs=[
